@@ -42,21 +42,26 @@ theorem joinItems_succ (n : Nat) : joinItems (n + 1) = itemCreated ++ (if n = 0 
   | zero => simp [joinItems]
   | succ n => simp [joinItems]
 
-theorem joinItems_snoc (n : Nat) : joinItems (n + 1) = joinItems n ++ (if n ≠ 0 then [44] else []) ++ itemCreated := by
+theorem joinItems_snoc (n : Nat) : joinItems (n + 2) = joinItems (n + 1) ++ 44 :: itemCreated := by
   induction n with
   | zero => simp [joinItems]
   | succ n ih =>
-    rw [joinItems_succ (n + 1), ih]
-    cases n with
-    | zero => simp [joinItems]
-    | succ n =>
-      rw [joinItems_succ (n + 1)]
-      simp
+    calc joinItems (n + 3) = itemCreated ++ 44 :: joinItems (n + 2) := rfl
+      _ = itemCreated ++ 44 :: (joinItems (n + 1) ++ 44 :: itemCreated) := by rw [ih]
+      _ = (itemCreated ++ 44 :: joinItems (n + 1)) ++ 44 :: itemCreated := by simp
+      _ = joinItems (n + 2) ++ 44 :: itemCreated := rfl
+
+theorem writeItems_succ_eq (n : Nat) : writeItems (n + 1) = joinItems (n + 1) := by
+  induction n with
+  | zero => simp [writeItems, joinItems]
+  | succ n ih =>
+    rw [writeItems, ih, joinItems_snoc]
+    simp
 
 theorem writeItems_eq (n : Nat) : writeItems n = joinItems n := by
-  induction n with
+  cases n with
   | zero => rfl
-  | succ n ih => rw [writeItems, ih, joinItems_snoc]
+  | succ n => exact writeItems_succ_eq n
 
 /-! ## reading the items back (what a client does with the answer) -/
 
@@ -96,8 +101,17 @@ theorem parseTail_join : ∀ (n f : Nat), n ≤ f →
     | zero => omega
     | succ f =>
       simp only [Nat.succ_ne_zero, if_false, List.cons_append, parseTail]
-      rw [joinItems_succ, List.append_assoc, stripItem_item, ih f (by omega)]
-      rfl
+      rw [joinItems_succ, List.append_assoc, stripItem_item]
+      simp [ih f (by omega)]
+
+theorem le_length_joinItems (n : Nat) : n ≤ (joinItems n).length := by
+  induction n with
+  | zero => simp
+  | succ n ih =>
+    rw [joinItems_succ]
+    by_cases h : n = 0
+    · simp [h, itemCreated]
+    · simp only [h, if_false, List.length_append, List.length_cons]; simp [itemCreated]; omega
 
 /-- **the answer lists exactly `total` created items**: the items array written by the loop reads back as
 `total` items -/
@@ -108,8 +122,15 @@ theorem parseItemList_response (total : Nat) : parseItemList (writeItems total +
   | succ n =>
     have hne : joinItems (n + 1) ++ respTail ≠ [93, 125] := by
       rw [joinItems_succ]; simp [itemCreated]
-    rw [parseItemList, if_neg hne, joinItems_succ, List.append_assoc, stripItem_item,
-      parseTail_join n _ (by simp [itemCreated]; omega)]
+    have hfuel : n ≤ (itemCreated ++ ((if n = 0 then [] else 44 :: joinItems n) ++ respTail)).length := by
+      have := le_length_joinItems n
+      by_cases h : n = 0
+      · simp [h]
+      · simp only [h, if_false, List.length_append, List.length_cons]; omega
+    unfold parseItemList
+    rw [if_neg hne, joinItems_succ, List.append_assoc, stripItem_item]
+    show (parseTail _ _).map (· + 1) = some (n + 1)
+    rw [parseTail_join n _ hfuel]
     rfl
 
 end SV.Bulk
